@@ -42,7 +42,7 @@ COMPONENTS = {
     "stub": ["file system (SimFS)", "raw byte stream (SimRaw: short reads, EOF)",
              "the consumer (seeded walk instead of the parser)"],
 }
-PROBES = ["tab_indent", "trailing_whitespace", "label_leading_zeros", "restore_across_semi_split", "restore_comment_inside_continuation",
+PROBES = ["resolved_include_in_stream", "tab_indent", "trailing_whitespace", "label_leading_zeros", "restore_across_semi_split", "restore_comment_inside_continuation",
           "literal_continued_over_3_lines", "fixed_comment_between_continuations",
           "short_read_inside_line", "cont_col1_no_amp", "eof_inside_statement",
           "walk_restored_all", "cut_word", "cut_lit"]
@@ -86,6 +86,39 @@ def generate(run_seed, cfg):
     eof_at = None
     if sw.random() < 0.2 and len(rend.lines) > 2:
         eof_at = sw.randrange(1, len(rend.lines))
+    # include variant: a contiguous run of statement groups (with the comment / blank lines
+    # before each) moves into frag.inc, which resolves through the default include path; items
+    # delivered from the nested reader carry file-relative spans, known by construction
+    include = None
+    items = rend.items
+    exp_comments = rend.comments
+    comment_lines = rend.comment_lines
+    lines_all = rend.lines
+    if sw.random() < 0.18 and len({tuple(e["span"]) for e in items}) >= 3:
+        spans = sorted({tuple(e["span"]) for e in items})
+        ga = sw.randrange(0, len(spans) - 1)
+        gb = min(len(spans) - 2, ga + sw.choice([0, 1, 2, 5]))
+        la = (spans[ga - 1][1] + 1) if ga > 0 else 1          # first moved line (1-based)
+        lb = spans[gb][1] if gb < len(spans) - 1 else len(lines_all)
+        if gb < len(spans) - 1 and la <= lb:
+            frag = lines_all[la - 1:lb]
+            inc_line = ("      " if form == "fixed" else " " * sw.choice([0, 1, 3])) + \
+                sw.choice(["include", "INCLUDE"]) + " 'frag.inc'"
+            moved = lb - la + 1
+            new_items = []
+            for e in items:
+                a, b = e["span"]
+                if b < la:
+                    new_items.append(e)
+                elif a >= la and b <= lb:
+                    new_items.append(dict(e, span=[a - la + 1, b - la + 1], included=True))
+                else:
+                    new_items.append(dict(e, span=[a - moved + 1, b - moved + 1]))
+            items = new_items
+            lines_all = lines_all[:la - 1] + [inc_line] + lines_all[lb:]
+            comment_lines = None
+            include = {"frag.inc": frag}
+            eof_at = None
     # the consumer's walk
     w = st("walk")
     walk = []
@@ -99,9 +132,9 @@ def generate(run_seed, cfg):
             walk.append(["restore", -1])  # everything obtained so far
     walk.append(["drain"])
     return {
-        "prop": ID, "form": form, "std": std, "layout_opts": opts, "lines": rend.lines,
-        "expected": rend.items, "expected_comments": rend.comments,
-        "comment_lines": rend.comment_lines,
+        "prop": ID, "form": form, "std": std, "layout_opts": opts, "lines": lines_all,
+        "expected": items, "expected_comments": exp_comments,
+        "comment_lines": comment_lines, "include": include,
         "layout_features": rend.features, "newline": nl, "final_newline": final_nl,
         "reader": kind, "faults": faults, "eof_at": eof_at,
         "ignore_comments": sw.random() < 0.5, "walk": walk,
@@ -185,7 +218,15 @@ def execute(case):
     text = build_text(case)
     data = text.encode("utf-8")
     faults = {"main.f90": dict(case["faults"])} if case["faults"] else {}
-    fs = host.SimFS({"main.f90": data}, faults, stats).install("c12-%d" % __import__("os").getpid())
+    image = {"main.f90": data}
+    for nm, frag in (case.get("include") or {}).items():
+        ftext = case["newline"].join(frag) + case["newline"]
+        image[nm] = ftext.encode("utf-8")
+        if case["faults"]:
+            faults[nm] = dict(case["faults"])
+    fs = host.SimFS(image, faults, stats).install("c12-%d" % __import__("os").getpid())
+    if case.get("include"):
+        probe("resolved_include_in_stream")
     host.install_log_counter()
     try:
         kind = case["reader"]
@@ -263,7 +304,9 @@ def execute(case):
                 elif got[0] != want["cls"]:
                     what = "class"
                 site = "plain-iteration/%s" % case["form"]
-                span_lines = case["lines"][want["span"][0] - 1:want["span"][1]]
+                src_lines = (case["include"]["frag.inc"] if want.get("included") else
+                             case["lines"])
+                span_lines = src_lines[want["span"][0] - 1:want["span"][1]]
                 if want["semi"]:
                     site += "/semi-split"
                 elif case["form"] == "free" and any(
@@ -271,16 +314,16 @@ def execute(case):
                     site += "/continuation-line-starts-in-col1-without-amp"
                 if what in ("name", "label", "text") and want["name"]:
                     import re as _re
-                    first_line = case["lines"][want["span"][0] - 1]
+                    first_line = src_lines[want["span"][0] - 1]
                     if not _re.search(r"\b%s\s*:" % _re.escape(want["name"]), first_line):
                         # the 'name :' prefix itself is split by a continuation
                         what = "name"
                         site = "name-prefix-split-by-continuation/%s" % case["form"]
                 violate("C12.a item-%s" % what, site,
                         {"index": k, "delivered": got, "expected": want,
-                         "lines": case["lines"][want["span"][0] - 1:want["span"][1]]})
+                         "lines": span_lines})
                 break
-        if not case["ignore_comments"] and not violations:
+        if not case["ignore_comments"] and not violations and not case.get("include"):
             # source order between comment and statement items (weak, sound form): a comment on
             # physical line L is delivered after every statement that ends on or before L and
             # before every statement that starts after L
@@ -453,6 +496,8 @@ def shrink_candidates(case):
         c = copy.deepcopy(case)
         c["eof_at"] = None
         yield c
+    if case.get("include"):
+        return
     # drop statement groups (all items sharing a span) anywhere: halves, quarters, ... singles;
     # the lines of the group go, later spans shift, the comment multiset is no longer checked
     exp = case["expected"]
